@@ -12,6 +12,7 @@ unrecognised statement as `unknown`: the `decide`d obligations in Proofs/Builder
 compiling (conservative)."""
 import ast, copy, inspect, textwrap
 import translate as T
+import alpha
 
 INSERT = {
     "rpms": ["arches = self.rpms.setdefault(variant, {})", "srpms = arches.setdefault(arch, {})",
@@ -51,11 +52,26 @@ EXACT = {
 }
 
 
+# local variables of each recognised method, in order of first binding, as they stood when the expected texts below were
+# written: a method whose locals were merely RENAMED is read as if it still used these names (tools/alpha.py)
+LIKE_LOCALS = {
+    ("Rpms", "add"): ["nevra_dict", "_", "arches", "srpms", "rpms"],
+    ("Rpms", "deserialize_0_3"): ["payload", "variant", "arch", "srpm_nevra", "rpms", "srpm_data", "rpm_nevra", "rpm_data", "category"],
+    ("Rpms", "_check_nevra"): ["nevra_dict"],
+    ("Modules", "add"): ["uid_dict", "name", "stream", "version", "context", "param_name", "param", "arches", "uids", "metadata"],
+    ("Modules", "_check_uid"): ["uid_dict"],
+    ("ExtraFiles", "add"): ["metadata"],
+    ("ExtraFiles", "dump_for_tree"): ["metadata", "item"],
+}
+
+
 def method_ast(cls, name):
     try:
-        return ast.parse(textwrap.dedent(inspect.getsource(getattr(cls, name)))).body[0]
+        fn = ast.parse(textwrap.dedent(inspect.getsource(getattr(cls, name)))).body[0]
     except Exception:
         return None
+    like = LIKE_LOCALS.get((cls.__name__, name))
+    return alpha.canon_locals(fn, like) if like is not None else fn
 
 
 def str_list(node):
